@@ -232,7 +232,8 @@ def run_case(case):
     mon = {"calls": 0, "rows_checked_converged": 0, "rows_flagged_notconverged": 0, "get_error_calls": 0,
            "loop_backedges": 0, "sp2_calls": 0, "ksa_returns": 0, "failpoints_fired": 0, "rows_capped_notconverged": 0,
            "flag_pessimistic_rows": 0, "repro_ineligible_small_gap": 0, "calls_raised": 0, "r1_rebuilds": 0,
-           "backward_fixed_point_calls": 0, "flag_rows_checked": 0, "iteration_counts_checked": 0}
+           "backward_fixed_point_calls": 0, "flag_rows_checked": 0, "iteration_counts_checked": 0,
+           "returned_vs_judged_rows": 0}
     viol, margins, cells = [], {}, []
 
     def upd(name, val, tol):
@@ -356,6 +357,16 @@ def run_case(case):
             elif worst < 1.0 - 1e-9:
                 mon["flag_pessimistic_rows"] += 1
         obs["last_errors"] = {k: [float(x) for x in L[k]] for k in ("dE", "rms", "max", "diis")}
+        # the flag speaks about the iterate that was judged: the returned density must be that iterate (observed:
+        # bitwise) -- at the very least not further from it than one admissible step of the element-wise rule
+        if elog.P_judged is not None and tuple(elog.P_judged.shape) == tuple(mol.dm.shape):
+            dj = (mol.dm.detach() - elog.P_judged).abs().reshape(nrow, -1).amax(dim=1).numpy()
+            for b in range(nrow):
+                if not flag[b] and np.isfinite(dj[b]):
+                    mon["returned_vs_judged_rows"] += 1
+                    if upd("returned_vs_judged_iterate", dj[b], scfmon.K_MAX * eps):
+                        viol.append({"clause": "returned-density-not-the-judged-iterate", "mech": None,
+                                     "detail": dict(detail_common, row=b, max_abs_difference=float(dj[b]), eps=eps)})
         if len(elog.eps_arg_seen) and any(abs(x - eps) > 1e-3 * eps for x in elog.eps_arg_seen):
             obs["eps_argument_differs_from_requested"] = sorted(elog.eps_arg_seen)
     else:
